@@ -71,7 +71,8 @@ func (r *Row) Add(c Cell) *Row {
 		// row already attached: the table's column count must keep up
 		r.inTable.resizeColumnsAtLeast(column)
 	}
-	invokePropertyCallbacks(r.rowCellCallbacks, CB_AT_ADD, ptr, r.ErrorContainer)
+	// errors go through the row, which creates its container on demand
+	invokePropertyCallbacks(r.rowCellCallbacks, CB_AT_ADD, ptr, r)
 	return r
 }
 
